@@ -58,6 +58,7 @@ func main() {
 			os.Setenv("VERIF_SEED", fmt.Sprint(v.Seed))
 			os.Setenv("VERIF_OUT", tmp)
 			debug.SetGCPercent(1600)
+			debug.SetMemoryLimit(8 << 30) // soft: the collector works harder near 8 GiB instead of letting the heap grow to seventeen times the live set (an out-of-memory kill when several checks share a machine)
 			c := rt.New(v.Property)
 			runGuarded(c, props[v.Property])
 			fmt.Println("now:", c.Report())
@@ -83,6 +84,7 @@ func main() {
 	// the workloads allocate many tiny objects on all cores; a small heap makes the
 	// collector run continuously and serialises the workers
 	debug.SetGCPercent(1600)
+	debug.SetMemoryLimit(8 << 30) // soft: the collector works harder near 8 GiB instead of letting the heap grow to seventeen times the live set (an out-of-memory kill when several checks share a machine)
 	c := rt.New(os.Args[1])
 	if names := exploreUnknownMethods(); len(names) > 0 {
 		c.Extra("methods_outside_the_pinned_api_called_before_the_streams", names)
